@@ -21,8 +21,9 @@ RULE = (
     "the result and every array reachable from an operand; overwrite each operand buffer -> result snapshot "
     "unchanged; overwrite each result buffer -> operand snapshots unchanged.  Documented in-place operations "
     "(__setitem__, ktensor.arrange/normalize/fixsigns/redistribute/update) may change the receiver only, and the "
-    "receiver must end up independent of the other arguments.  Non-trivial: the operation returned, has >=1 "
-    "non-empty array operand and the result holds >=1 non-empty array."
+    "receiver must end up independent of the other arguments.  Non-trivial: the operation returned and at least one "
+    "operand (receiver included) holds a non-empty array, so the bit-identity clause has something to protect; the "
+    "share of cases whose result also holds an array (independence clauses active) is the label 'result-has-arrays'."
 )
 ASSUMPTIONS = [
     "explicit no-copy constructions (copy=False, to_tensor(copy=False), to_tenmat(copy=False), from_function) are outside the claim and not generated",
